@@ -7,6 +7,7 @@ import (
 	"sort"
 	"strings"
 	"sync"
+	"sync/atomic"
 	"testing"
 	"time"
 
@@ -38,6 +39,8 @@ type c04Scenario struct {
 	// Solo: at the end, a name that has exactly ONE handler in its set (no sentinels on it), which
 	// mutates that same set from inside the handler: "" none, else fg/bg + ":" + selfremove/add
 	Solo string `json:"solo"`
+	// Blocker: a background handler on this name parks its first invocation until the scenario ends
+	Blocker string `json:"blocker"`
 }
 
 type c04H struct {
@@ -229,6 +232,7 @@ func genC04(t *rapid.T) *c04Scenario {
 	}
 	sc.Ops = append(sc.Ops, c04Op{Op: "event", Name: "EVA"}, c04Op{Op: "event", Name: "evb"}, c04Op{Op: "event", Name: "Evc"}, c04Op{Op: "event", Name: "PING"})
 	sc.Solo = rapid.SampledFrom([]string{"", "fg:selfremove", "fg:add", "bg:selfremove", "bg:add"}).Draw(t, "solo")
+	sc.Blocker = rapid.SampledFrom([]string{"", "", "EVA", "evb", "PING"}).Draw(t, "blocker")
 	return sc
 }
 
@@ -249,6 +253,27 @@ type c04Run struct {
 	bgSent   map[int]chan struct{}
 	panics   []string
 	kinds    map[int]bool // id -> is background
+	blocked  atomic.Int32 // 1 while the blocker's first invocation is parked
+	release  chan struct{}
+}
+
+// residualFrames: goroutines that legitimately stay inside dispatch between events.
+func (r *c04Run) residualFrames() int {
+	if r.blocked.Load() == 1 {
+		return 2 // the parked handler invocation and the background dispatch goroutine waiting for it
+	}
+	return 0
+}
+
+// c04Blocker is a background handler whose first invocation never returns until the scenario ends,
+// so that later registrations / removals / events happen while a dispatch on that set is in flight.
+type c04Blocker struct{ r *c04Run }
+
+func (b c04Blocker) Handle(c *client.Conn, l *client.Line) {
+	if b.r.blocked.CompareAndSwap(0, 1) {
+		<-b.r.release
+		b.r.blocked.Store(2)
+	}
 }
 
 func dispatchFrames() int {
@@ -347,7 +372,7 @@ func (r *c04Run) remove(id int) {
 
 func runC04(sc *c04Scenario) *Violation {
 	r := &c04Run{inv: map[int]map[int]int{}, removers: map[int]client.Remover{}, armed: map[int]*c04Op{}, pinFail: map[int]bool{},
-		fgSent: map[int]chan struct{}{}, bgSent: map[int]chan struct{}{}, kinds: map[int]bool{}}
+		fgSent: map[int]chan struct{}{}, bgSent: map[int]chan struct{}{}, kinds: map[int]bool{}, release: make(chan struct{})}
 	r.tc = newTestClient(cliOpts{Flood: true, Configure: func(cfg *client.Config) {
 		cfg.Recover = func(c *client.Conn, l *client.Line) {
 			if e := recover(); e != nil {
@@ -358,7 +383,11 @@ func runC04(sc *c04Scenario) *Violation {
 		}
 	}})
 	defer r.tc.shutdown()
+	defer close(r.release)
 	m := newC04Model()
+	if sc.Blocker != "" {
+		r.tc.C.HandleBG(sc.Blocker, c04Blocker{r})
+	}
 	for _, o := range sc.Ops[:sc.PreRegs] {
 		r.register(o.ID, o.Kind, o.Name)
 		m.hs[o.ID] = &c04H{id: o.ID, name: strings.ToLower(o.Name), bg: o.Kind == "bg", alive: true}
@@ -408,13 +437,12 @@ func runC04(sc *c04Scenario) *Violation {
 			_, dump := goircGoroutines()
 			return &Violation{Property: "C04", Msg: fmt.Sprintf("event %d (%s): %s", ev, name, what), Detail: dump}
 		}
-		if !r.tc.syncIn(stallTimeout()) {
-			return fail("foreground dispatch never completed (dead-lock while registering/removing from a handler?)")
-		}
+		// no marker line is sent between events (consecutive events of one name must work too): the
+		// permanently registered sentinels tell us that both dispatches have started ...
 		select {
 		case <-fgS:
-		default:
-			return fail("the permanently registered foreground sentinel was not invoked")
+		case <-time.After(stallTimeout()):
+			return fail("the permanently registered foreground sentinel was not invoked (or the event loop is dead-locked)")
 		}
 		select {
 		case <-bgS:
@@ -422,8 +450,10 @@ func runC04(sc *c04Scenario) *Violation {
 			return fail("the permanently registered background sentinel was not invoked")
 		}
 		wg.Wait()
-		if !waitCond(stallTimeout(), func() bool { return dispatchFrames() == 0 }) {
-			return fail("handler dispatch did not finish")
+		// ... and the goroutine dump that they have finished (a deliberately blocked background handler
+		// keeps its own goroutine and its dispatch goroutine alive)
+		if !waitCond(stallTimeout(), func() bool { return dispatchFrames() == r.residualFrames() }) {
+			return fail("handler dispatch did not finish (dead-lock while registering/removing from a handler?)")
 		}
 		r.mu.Lock()
 		got := r.inv[ev]
@@ -550,6 +580,9 @@ func runC04Solo(r *c04Run, solo string) *Violation {
 	var rem client.Remover
 	reg := func(key string, f func(c *client.Conn, l *client.Line)) client.Remover {
 		h := client.HandlerFunc(func(c *client.Conn, l *client.Line) {
+			if l.Text() == "0" {
+				return // the registration overtook the unobserved first event: not counted
+			}
 			mu.Lock()
 			counts[key]++
 			mu.Unlock()
@@ -562,8 +595,16 @@ func runC04Solo(r *c04Run, solo string) *Violation {
 		}
 		return r.tc.C.HandleFunc(name, h)
 	}
+	// an event of this name while nothing at all is registered under it, directly followed (no other
+	// verb in between) by the registration and the next event of the same name
+	r.tc.conn().SendLine(fmt.Sprintf(":s!u@h %s tgt :0", name))
+	waitCond(50*time.Millisecond, func() bool { return r.tc.conn().Pending() == 0 })
+	time.Sleep(300 * time.Microsecond)
 	armed := true
 	rem = reg("first", func(c *client.Conn, l *client.Line) {
+		if l.Text() == "0" {
+			return // the registration overtook the unobserved first event: not counted
+		}
 		mu.Lock()
 		a := armed
 		armed = false
@@ -583,7 +624,7 @@ func runC04Solo(r *c04Run, solo string) *Violation {
 	}
 	for round := 1; round <= 2; round++ {
 		r.tc.conn().SendLine(fmt.Sprintf(":s!u@h %s tgt :%d", name, round))
-		if !r.tc.syncIn(stallTimeout()) {
+		if round == 1 && !r.tc.syncIn(stallTimeout()) {
 			return fail(fmt.Sprintf("event %d never completed (dead-lock while the only handler of the name changed the handler set)", round))
 		}
 		want := map[string]int{"first": 1}
@@ -597,7 +638,7 @@ func runC04Solo(r *c04Run, solo string) *Violation {
 		ok := waitCond(stallTimeout(), func() bool {
 			mu.Lock()
 			defer mu.Unlock()
-			return counts["first"] >= want["first"] && counts["second"] >= want["second"] && dispatchFrames() == 0
+			return counts["first"] >= want["first"] && counts["second"] >= want["second"] && dispatchFrames() == r.residualFrames()
 		})
 		mu.Lock()
 		got := fmt.Sprint(counts)
